@@ -38,6 +38,10 @@ impl<A: Actor> Environment<A, RestartOnly> {
     #[verifier::external_body] pub fn unbounded() -> (r: Self) ensures r.cap() is None, r.cfg().timeout is None, !r.cfg().fail_on_timeout { unimplemented!() }
     #[verifier::external_body] pub fn bounded(capacity: usize) -> (r: Self) ensures r.cap() == Some(capacity), r.cfg().timeout is None, !r.cfg().fail_on_timeout { unimplemented!() }
 }
+impl<A: Actor, R: StrategyKind> Environment<A, R> {
+    // environment.rs Environment::recreating (proved in unit envctor: `env.recreating-keeps-everything`): only the strategy type changes
+    #[verifier::external_body] pub fn recreating(self) -> (r: Environment<A, RecreateFromDefault>) ensures r.cap() == self.cap(), r.cfg() == self.cfg() { unimplemented!() }
+}
 // the three strategies and what the statement of C07 says each does (the refresh bodies are proved against this in unit env)
 pub struct NonRestartable; pub struct RestartOnly; pub struct RecreateFromDefault;
 impl StrategyKind for NonRestartable { open spec fn kind() -> Kind { Kind::Ignore } }
